@@ -541,6 +541,129 @@ Proof.
   - intros ->. reflexivity.
 Qed.
 
+(** * Sizes: delivery *)
+
+Lemma recv_closed_absorbing : forall pa k fs st,
+  r_closed st = true -> fold_left (recv_frame pa k) fs st = st.
+Proof.
+  intros pa k. induction fs as [|f fs IH]; intros st H; cbn [fold_left]; [reflexivity|].
+  assert (recv_frame pa k st f = st) as -> by (unfold recv_frame; now rewrite H).
+  now apply IH.
+Qed.
+
+Lemma split_oversize_slices : forall k c p,
+  max_payload < blen p + overhead ->
+  exists r rs, split_blob (Whole k c p) = Slice k c p (fst r) (snd r) :: rs /\ 0 < snd r.
+Proof.
+  intros k c p H. unfold split_blob. cbn [blob_size].
+  assert (blen p + overhead <=? max_payload = false) as -> by lia.
+  destruct (ranges_some max_payload (blen p + overhead)) as (rs & Hr & Hall & Hsum & _); [reflexivity|].
+  rewrite Hr. destruct rs as [|r rs].
+  - cbn in Hsum. lia.
+  - exists r, (map (fun r0 => Slice k c p (fst r0) (snd r0)) rs). split; [reflexivity|].
+    inversion Hall as [|? ? Hr0 _]; subst. lia.
+Qed.
+
+Lemma recv_slice_closes : forall pa k st c p off len,
+  r_closed st = false -> 0 < len ->
+  recv_frame pa k st (Slice k c p off len) = {| r_expect := r_expect st; r_closed := true; r_out := r_out st |}.
+Proof.
+  intros pa k st c p off len Hc Hl. unfold recv_frame. rewrite Hc. cbn [blob_size open].
+  assert (len =? 0 = false) as -> by lia. reflexivity.
+Qed.
+
+Lemma recv_whole_opens : forall pa k st c msg,
+  r_closed st = false -> r_expect st <= c ->
+  recv_frame pa k st (Whole k c msg) = {| r_expect := c + 1; r_closed := false; r_out := r_out st ++ deliver pa msg |}.
+Proof.
+  intros pa k st c msg Hc He. unfold recv_frame. rewrite Hc. cbn [blob_size open].
+  assert (blen msg + overhead =? 0 = false) as -> by (unfold overhead; lia).
+  rewrite N.eqb_refl. assert (r_expect st <=? c = true) as -> by lia. reflexivity.
+Qed.
+
+Lemma sz_pieces_delivery : forall pa k ps ctr st,
+  (r_closed st = false -> r_expect st <= ctr) ->
+  let '(fs, c', e) := send_pieces pa k ctr ps in
+  let '(sfs, se, d, cl) := sz_pieces pa (map blen ps) (r_closed st) in
+  let st' := fold_left (recv_frame pa k) fs st in
+  blen (r_out st') = blen (r_out st) + d /\ r_closed st' = cl /\ ctr <= c' /\
+  (cl = false -> r_expect st' <= c').
+Proof.
+  intros pa k. induction ps as [|p ps IH]; intros ctr st Hinv; cbn [send_pieces sz_pieces map].
+  - cbn. repeat split; try lia; try reflexivity; try assumption.
+  - pose proof (sz_send_msg_agrees pa k ctr (p_prefix pa ++ p)) as Hm. rewrite blen_app in Hm.
+    rewrite <- Hm.
+    destruct (send_msg pa k ctr (p_prefix pa ++ p)) as [fs|] eqn:Es; cbn [option_map].
+    + (* the message was framed *)
+      set (n := blen (p_prefix pa) + blen p) in *.
+      (* receiver state after the frames of this message *)
+      assert (Hst : exists st1, fold_left (recv_frame pa k) fs st = st1 /\
+                r_closed st1 = (r_closed st || negb (sz_opens n)) /\
+                blen (r_out st1) = blen (r_out st) + (if negb (r_closed st) && sz_opens n then blen p else 0) /\
+                (r_closed st1 = false -> r_expect st1 <= ctr + 1)).
+      { destruct (r_closed st) eqn:Ec.
+        - exists st. rewrite recv_closed_absorbing by assumption. cbn. repeat split; try assumption; try lia. congruence.
+        - unfold sz_opens. unfold send_msg in Es.
+          destruct (n + overhead <=? max_payload) eqn:Efit.
+          + (* one whole frame *)
+            assert (fs = [Whole k ctr (p_prefix pa ++ p)]) as ->.
+            { destruct (p_sender pa).
+              - cbn [blob_size] in Es. rewrite blen_app in Es. fold n in Es. rewrite Efit in Es. now injection Es as <-.
+              - rewrite split_whole_fits in Es by (rewrite blen_app; fold n; lia). now injection Es as <-. }
+            cbn [fold_left]. rewrite recv_whole_opens by (first [assumption | apply Hinv; reflexivity]).
+            eexists; split; [reflexivity|]. cbn. rewrite deliver_prefixed, blen_app. repeat split; lia.
+          + (* oversize: Direct would have failed, so this is Split: slices *)
+            destruct (p_sender pa).
+            * cbn [blob_size] in Es. rewrite blen_app in Es. fold n in Es. rewrite Efit in Es. discriminate.
+            * injection Es as <-.
+              destruct (split_oversize_slices k ctr (p_prefix pa ++ p)) as (r & rs & Hsp & Hpos);
+                [rewrite blen_app; fold n; lia|].
+              rewrite Hsp. cbn [fold_left]. rewrite recv_slice_closes by assumption.
+              rewrite recv_closed_absorbing by reflexivity.
+              eexists; split; [reflexivity|]. cbn. repeat split; try lia; try discriminate. }
+      destruct Hst as (st1 & Hf & Hc1 & Ho1 & He1).
+      specialize (IH (ctr + 1) st1 He1).
+      destruct (send_pieces pa k (ctr + 1) ps) as [[rest c'] e].
+      rewrite Hc1 in IH.
+      destruct (sz_pieces pa (map blen ps) (r_closed st || negb (sz_opens n))) as [[[srest se] d] cl].
+      cbn zeta in IH |- *. rewrite fold_left_app, Hf.
+      destruct IH as (I1 & I2 & I3 & I4). repeat split; try assumption; try lia.
+    + (* Frame.Encode error: nothing more is sent *)
+      cbn. repeat split; try lia; try (intros H; specialize (Hinv H); lia).
+Qed.
+
+(** The oracle's delivered byte count and verdict are those of the byte-level
+    receiver. *)
+Theorem sz_delivery_agree : forall pa k ctr expect blocks eofd,
+  expect <= ctr -> trailer_silent pa = true ->
+  match run pa k ctr blocks eofd, sz_run pa (map blen blocks) eofd with
+  | Some o, Some (_, d, ok) =>
+      let st := receive pa k expect (o_frames o) in
+      blen (r_out st) = d /\ ok = negb (o_error o) && negb (r_closed st)
+  | None, None => True
+  | _, _ => False
+  end.
+Proof.
+  intros pa k ctr expect blocks eofd He Hsil. unfold run, sz_run.
+  rewrite <- sz_pieces_of_agrees.
+  destruct (pieces_of pa blocks) as [ps|]; cbn [option_map]; [|exact I].
+  pose proof (sz_pieces_delivery pa k ps ctr {| r_expect := expect; r_closed := false; r_out := [] |}) as H.
+  pose proof (sz_pieces_frames pa k ps ctr false) as [_ Herr].
+  cbn [r_closed r_expect r_out] in H. specialize (H (fun _ => He)).
+  destruct (send_pieces pa k ctr ps) as [[fs c'] e].
+  destruct (sz_pieces pa (map blen ps) false) as [[[sfs se] d] cl].
+  cbn in Herr. subst se. cbn zeta in H. destruct H as (H1 & H2 & H3 & H4).
+  cbn [o_frames o_error]. unfold receive.
+  destruct e.
+  - cbn in H1. split; [lia|]. reflexivity.
+  - rewrite fold_left_app.
+    set (st1 := fold_left (recv_frame pa k) fs {| r_expect := expect; r_closed := false; r_out := [] |}) in *.
+    destruct cl.
+    + rewrite recv_closed_absorbing by assumption. cbn in H1. split; [lia|]. now rewrite H2.
+    + destruct (recv_trailer pa k c' (negb match ps with [] => true | _ => false end) eofd st1 Hsil H2 (H4 eq_refl)) as (e' & Ht).
+      rewrite Ht. cbn [r_out r_closed]. cbn in H1. split; [lia|reflexivity].
+Qed.
+
 (** * The paths of the current code *)
 
 Lemma all_paths_ok : forallb path_ok all_paths = true.
